@@ -7,6 +7,29 @@ from pathlib import Path
 VERIF = Path(__file__).resolve().parents[1]
 
 CHECKS = {
+    "C06": dict(
+        category="exploration", design_ref="DESIGN.md §2 C06",
+        technique="controlled scheduling of a collector thread against committing transaction threads (bounded-preemption DFS, PCT, random) with aged files; final-reachability oracle + deletion log",
+        text="One real collect() (grace 1 h) and 1-2 real transactions (commit of a long-running transaction whose "
+             "files were written and aged before the collection started, append, multi-append, delete+append, commit "
+             "failing at the pointer write) run under the cooperative scheduler with a gate before every storage "
+             "operation; all schedules with <=1 preemption for every kind and <=2 for three kinds (quick) / all (thorough, "
+             "+k=3 for two). When every actor is done each file of every snapshot in the final metadata must exist and "
+             "parse and acked rows must be readable; the deletion log names the culprit.",
+        note="Files written after the collector's first storage call stay fresh (proviso: grace exceeds the run).",
+    ),
+    "C08": dict(
+        category="exploration", design_ref="DESIGN.md §2 C08",
+        technique="controlled scheduling at S3-request granularity over an in-memory conditional-write S3 double with virtual-clock lease expiry and heartbeat actors; per-CAS oracle 'replaced pointer == validated version' + fence-truth monitor + per-flip delta model",
+        text="Committers run the real S3 backend / S3LockProvider against the double with a gate before the effect of "
+             "every request (a parked PUT is a delayed in-flight PUT); a clock actor expires the lease, a heartbeat actor "
+             "drives real renewals; the lock is the real CAS lock or a stub granting everyone. All <=1-preemption "
+             "schedules for every cell, <=2 for the key cells (quick, budgeted for the 3-actor cell) / <=2 everywhere and "
+             "<=3 key cells (thorough); 3 committers under PCT/random. At every successful conditional PUT of the "
+             "pointer the replaced content must name the version that actor fetched for validation; an attempt whose "
+             "ownership read showed another owner must not flip; C01's per-flip delta model applies.",
+        note="S3 = strongly consistent double; real providers' quirks are out of reach offline.",
+    ),
     "C01": dict(
         category="exploration", design_ref="DESIGN.md §2 C01",
         technique="controlled scheduling of real committer threads (bounded-preemption DFS, PCT, random) + per-pointer-flip delta oracle by an independent reader; multi-process stress",
